@@ -11,7 +11,8 @@ RULE = ("each case = one record R (parsed from a generated message, or built thr
         "write(parse(W)) == W, the reference decoder accepts W with strictly backward pointers and its "
         "dump equals dump(R); the same through ares_dns_write_buf_tcp at buffer positions "
         "{0,1,2,11,300,16383,16384,40000} with and without a consumed prefix, and through "
-        "ares_dns_record_duplicate. non-trivial = written and (>=2 RRs or >=1 compression pointer); "
+        "ares_dns_record_duplicate; a failed write must fail in the framed writer too and leave its buffer untouched; "
+        "E1 stage: every datagram / de-framed TCP message the virtual servers receive decodes as a well-formed query. non-trivial = written and (>=2 RRs or >=1 compression pointer); "
         "distinct = distinct (RR type multiset, pointer-count class, size bucket); mkquery: distinct "
         "(kind of name text, status, EDNS, text length bucket)")
 
@@ -27,7 +28,10 @@ PLAN = [
 
 
 def own(key):
-    # monitor keys rt:* and every sanitizer report in the writer / parser are C03's
+    # keys of the simulator stage other than the frame monitor's belong to the simulator's own checks
+    if key.startswith("sim:"):
+        return "C01"
+    # monitor keys rt:*, frame:* and every sanitizer report in the writer / parser are C03's
     return PROP
 
 
@@ -40,6 +44,18 @@ def run(tier, seed, scale=1.0):
             continue
         sp = common.spec("codec", prof, seed)
         res.merge(vdriver.explore(sp, n, chunk=max(5, min(chunk, n // 32 or 1)), chunk_timeout=150))
+    # E1 frame monitor: everything the virtual servers receive (UDP datagrams, de-framed TCP messages) in hostile
+    # and chopped-transport histories must decode as one well-formed query
+    for prof, quick, thorough in (("hostile", 12000, 600000), ("transport", 800, 40000)):
+        n = int((quick if tier == "quick" else thorough) * scale)
+        if n <= 0:
+            continue
+        r = vdriver.explore(common.spec("simnet", prof, seed), n, chunk=max(100, n // 64), chunk_timeout=600)
+        for v in r.violations:
+            if not v["key"].startswith("frame:"):
+                v["key"] = "sim:" + v["key"]
+        r.counters = {"sim_" + k: v for k, v in r.counters.items() if k in ("transmissions", "tx_udp", "tx_tcp", "cases", "tx_undecodable")}
+        res.merge(r)
     return common.finish(PROP, tier, seed, "exploration", res, own, RULE, t0,
                          min_conclusive=1000 * scale,
                          assumptions=["the reference codec harness/refdns implements the RFC wire formats "
